@@ -85,7 +85,8 @@ static int ref_match(const ccase *c, const ent *san, int nsan, const char *x, in
         if (san[i].kind == CG_GN_EMAIL && (nt == NAME_TYPE_ANY || nt == NAME_TYPE_SAN_EMAIL) && ref_email(v, n, x)) return 1;
         if (san[i].kind == CG_GN_IP && (nt == NAME_TYPE_ANY || nt == NAME_TYPE_SAN_IP_ADDRESS) && ref_ip(v, n, x)) return 1;
     }
-    if (!supported && c->ncn == 1 && (nt == NAME_TYPE_ANY || nt == NAME_TYPE_HOSTNAME || nt == NAME_TYPE_CN)) return ref_dns(c->cn[0].v, c->cn[0].len, x);
+    /* several CNs: the statement says "the subject common name"; any of them is granted (the library keeps the last one) */
+    if (!supported && (nt == NAME_TYPE_ANY || nt == NAME_TYPE_HOSTNAME || nt == NAME_TYPE_CN)) for (int i = 0; i < c->ncn; i++) if (ref_dns(c->cn[i].v, c->cn[i].len, x)) return 1;
     return 0;
 }
 
@@ -380,7 +381,7 @@ static void ip_cases(const unsigned char o[4])
     focus("ip-length", E, 2, 0, CG_GN_IP, b, 16);               /* IPv6-sized entry whose first four octets equal E */
     b[15] = 1; focus("ip-length", E, 2, 0, CG_GN_IP, b, 16);
     focus("ip-length", E, 2, 0, CG_GN_IP, b, 5); focus("ip-length", E, 2, 0, CG_GN_IP, b, 8);
-    { unsigned char m[16] = { 0, 0, 0, 0, 0, 0, 0, 0, 0, 0, 0xff, 0xff }; memcpy(m + 12, o, 4); focus("ip-v4-mapped", E, 2, 0, CG_GN_IP, m, 16); }
+    { unsigned char m[16] = { 0, 0, 0, 0, 0, 0, 0, 0, 0, 0, 0xff, 0xff }; memcpy(m + 12, o, 4); focus("ip-length", E, 2, 0, CG_GN_IP, m, 16); /* ::ffff:a.b.c.d */ }
     unsigned char q[4]; memcpy(q, o, 4); q[3] ^= 1; focus("unrelated", E, 2, 0, CG_GN_IP, q, 4);
     memcpy(q, o, 4); q[0] ^= 0x80; focus("unrelated", E, 2, 0, CG_GN_IP, q, 4);
     /* textual truncation: an address whose text has E as a proper prefix (and vice versa) */
